@@ -1,7 +1,7 @@
 """C08 — outputs with a safe value are safe whenever no run is progressing.
 
 Domain : generated output-driving methods (Set/Slow/OvA/OvB/Flow, waits, timed Pause/Hold, blocks) x control
-         schedules (user Start/Stop/Pause/Unpause/Hold/Unhold/Restart, user output commands Open1/Open2) x
+         schedules (user Start/Stop/Pause/Unpause/Hold/Unhold/Restart, user output commands Open1/Open2 and the multi-tick Keep1/Keep2) x
          non-safe initial hardware content.
 Observed only at the recording hardware: register memory after every tick and every physical write.
 Oracle (history invariants, one signature per phase):
@@ -27,7 +27,7 @@ RULE = ("Hypothesis draws an output-driving method, a control schedule (4-14 pha
 ASSUMPTIONS = [
     "the pause is judged from the tick after the one in which Pause executed (the tick that begins Paused)",
     "the Stopped tick in the middle of a Restart is not a Stop: the statement lists engine start, Stop and Pause only",
-    "user output commands are the argument-less UOD commands Open1/Open2 issued through execute_control_command_from_user",
+    "user output commands are the argument-less UOD commands Open1/Open2 (one tick) and Keep1/Keep2 (write in each of 4/3 ticks) issued through execute_control_command_from_user",
 ]
 TIERS = {"quick": {"examples": 6400, "budget_s": 100}, "thorough": {"examples": 50000, "budget_s": 1500}}
 KNOWN_EXCLUDED = {}
@@ -73,9 +73,9 @@ def oracle(case, recs) -> tuple[list[Violation], dict]:
         if r.state == "Paused" and r.prev_state == "Paused":
             info["paused_ticks"] += 1
             for op in r.user_ops:
-                if op == "Open1":
+                if op in ("Open1", "Keep1"):
                     exempt.add("Out1")
-                elif op == "Open2":
+                elif op in ("Open2", "Keep2"):
                     exempt.add("Out2")
             for e in r.events:
                 if e[1] == "out_set" and e[4] not in ("Open1", "Open2"):
@@ -98,8 +98,8 @@ def oracle(case, recs) -> tuple[list[Violation], dict]:
         else:
             # tick in which the pause began: commands of this tick may already count as 'during the pause'
             for op in r.user_ops:
-                if op in ("Open1", "Open2"):
-                    exempt.add("Out1" if op == "Open1" else "Out2")
+                if op in ("Open1", "Open2", "Keep1", "Keep2"):
+                    exempt.add("Out1" if op.endswith("1") else "Out2")
             for e in r.events:
                 if e[1] == "out_set" and e[4] not in ("Open1", "Open2"):
                     cmd_set_in_pause.add(e[2])
